@@ -86,4 +86,5 @@ func genericPack(c *Ctx) {
 	ruleSortedInvariant(c, "G-SORTED-INVARIANT", pkgs, 0)
 	ruleJoinedErrWhole(c, "G-PARALLEL-ERR-WHOLE", pkgs, 0)
 	ruleWriteSwallow(c, "G-WRITE-SWALLOW", pkgs, 0)
+	ruleRangeKey(c, "G-RANGE-KEY-AS-ELEMENT", pkgs)
 }
